@@ -53,7 +53,9 @@ def main():
         },
         "engines": [{"name": e, "path": "harness/%s.cpp" % e, "serves_properties": sorted(ps),
                      "kind_free_text": "rapidcheck property engine (g++, ASan+UBSan+_GLIBCXX_ASSERTIONS) with library-free --replay"}
-                    for e, ps in sorted(engines.items())],
+                    for e, ps in sorted(engines.items())] + [
+            {"name": "c17_faults", "path": "vlib/c17_faults.py", "serves_properties": ["C17"], "kind_free_text": "python fault enumerator driving harness/C10_pipeline --startup-batch"},
+            {"name": "c17_fuzz", "path": "vlib/c17_fuzz.py", "serves_properties": ["C17"], "kind_free_text": "libFuzzer campaign runner for fuzz/fuzz_mesh.cpp, fuzz_xml.cpp, fuzz_startup.cpp (clang)"}],
         "checks": checks,
         "not_applicable": na,
         "notes": "All checks: bin/check <ID> --tier quick|thorough (env VERIF_SEED). Known findings: known_findings.json. "
